@@ -22,7 +22,7 @@ for d in sorted(glob.glob(os.path.join(ROOT, 'seeded', '*'))):
         rc = json.load(open(rp))
         own = checks.get(name.split('-')[0], {}).get('exit')
         if own == 0 and rc.get('status') == 'caught':
-            res += '; after strengthening (harness %s): CAUGHT (%ss)' % (rc.get('harness_rev'), rc.get('seconds'))
+            res += '; after strengthening (harness %s): CAUGHT%s (%ss)' % (rc.get('harness_rev'), (' by ' + rc['check']) if rc.get('check') and rc['check'] != name.split('-')[0] else '', rc.get('seconds'))
         elif rc.get('status') not in ('caught',):
             res += '; latest re-run: %s' % rc.get('status')
     if m.get('note_after_fix'):
@@ -33,7 +33,7 @@ def _now_caught(mp):
     rp = os.path.join(d, 'recheck.json')
     if os.path.exists(rp):
         return json.load(open(rp)).get('status') == 'caught'
-    return bool(m.get('caught_by')) and pid in m.get('caught_by')
+    return bool(m.get('caught_by')) and (pid in m.get('caught_by') or m.get('violates_instead') in m.get('caught_by'))
 def _first(mp):
     m = json.load(open(mp)); pid = os.path.basename(os.path.dirname(mp)).split('-')[0]
     return m.get('verified_by_me', {}).get('checks', {}).get(pid, {}).get('exit') == 1
